@@ -606,6 +606,7 @@ def run(ctx):
             record(r)
             nex += 1
     ctx.extra['exhaustive_histories'] = nex
+    inuse_family(ctx, 250 if quick else 6000)
     # ---- correspondence
     if ctx.model.available:
         flush()
@@ -654,6 +655,90 @@ def reparse_correspondence(ctx, n):
         else:
             ctx.disagree('level-machine', {'text': text, 'kinds': c[1:]}, want, o)
     ctx.extra['level_machine_correspondence'] = {'texts': len(cases), 'agree': agree}
+
+
+def link_errors(sheet):
+    """parent links of everything reachable from the sheet (public API only)"""
+    bad = []
+
+    def walk(rules, container, path):
+        for i, r in enumerate(rules):
+            here = '%s/%d' % (path, i)
+            if r.parentStyleSheet is not sheet:
+                bad.append('%s (type %s): parentStyleSheet is %r' % (here, r.type, r.parentStyleSheet))
+            if r.parentRule is not container:
+                bad.append('%s (type %s): parentRule is %r' % (here, r.type, r.parentRule))
+            st = getattr(r, 'style', None)
+            if st is not None:
+                if st.parentRule is not r:
+                    bad.append('%s: style.parentRule is %r' % (here, st.parentRule))
+                for p_ in st.getProperties(all=True):
+                    if p_.parent is not st:
+                        bad.append('%s: property %s names %r as parent' % (here, p_.name, p_.parent))
+            sub = getattr(r, 'cssRules', None)
+            if sub is not None and r.type in (r.MEDIA_RULE, r.PAGE_RULE):
+                walk(sub, r, here)
+    walk(sheet.cssRules, None, '')
+    return bad
+
+
+def inuse_family(ctx, n):
+    """sheets whose namespaces are in use (top level, @media, nested @media, :not()) and whose @page rules repeat a
+    margin box: operations that are REJECTED (removing a used namespace, an undeclared prefix, a wrong position) and
+    accepted ones must both leave every parent link right.  Search only."""
+    import cssutils
+    import xml.dom
+    from harness import impl
+    rng = ctx.rng
+    for _ in range(n):
+        impl.reset()
+        where = rng.choice(['p|a{left:0}', '@media tv{p|a{left:0}}', '@media tv{@media print{p|a{left:0}}}', 'b:not(p|a){left:0}', 'a{left:0}'])
+        text = ('@namespace p "u"; @namespace q "v"; ' + where + ' x{top:0;color:red} '
+                '@page{margin:0;@top-left{color:red}@top-left{left:0;color:blue}} @media print{y{right:0}}')
+        sheet = cssutils.parseString(text)
+        ops = []
+        for k in range(rng.randrange(1, 6)):
+            op = rng.choice(['delrule-ns', 'delrule-obj', 'del-map', 'insert-dup-prefix', 'add-undeclared', 'setprop-object',
+                             'sel-undeclared', 'delrule-any', 'insert-misplaced'])
+            ops.append(op)
+            try:
+                if op == 'delrule-ns':
+                    sheet.deleteRule(rng.randrange(2))
+                elif op == 'delrule-obj':
+                    sheet.deleteRule(sheet.cssRules[rng.randrange(min(2, sheet.cssRules.length))])
+                elif op == 'del-map':
+                    del sheet.namespaces[rng.choice(['p', 'q'])]
+                elif op == 'insert-dup-prefix':
+                    sheet.insertRule(cssutils.css.CSSNamespaceRule(namespaceURI='w', prefix='p'), rng.randrange(3))
+                elif op == 'add-undeclared':
+                    sheet.add('zz|a{left:0}')
+                elif op == 'sel-undeclared':
+                    st = [r for r in sheet.cssRules if r.type == r.STYLE_RULE]
+                    if st:
+                        st[0].selectorText = 'zz|b'
+                elif op == 'setprop-object':
+                    st = [r for r in sheet.cssRules if r.type == r.STYLE_RULE]
+                    if len(st) >= 2:
+                        src = st[-1].style.getProperties(all=True)
+                        if src:
+                            # moved, not shared: taken out of its block first
+                            st[-1].style.removeProperty(src[0].name)
+                            st[0].style.setProperty(src[0], replace=rng.random() < 0.5)
+                elif op == 'delrule-any':
+                    sheet.deleteRule(rng.randrange(-2, sheet.cssRules.length + 1))
+                else:
+                    sheet.insertRule('@import "late.css";', sheet.cssRules.length)
+            except (xml.dom.DOMException, IndexError):
+                pass
+            except Exception as e:  # noqa
+                ctx.violation('inuse-raises', {'text': text, 'ops': ops}, '%s: %s' % (type(e).__name__, e), KNOWN_PRED)
+                break
+            bad = link_errors(sheet)
+            if bad:
+                kind = 'parentStyleSheet-listed' if 'parentStyleSheet' in bad[0] else ('property-parent' if 'property' in bad[0] else 'parentRule')
+                ctx.violation(kind, {'text': text, 'ops': list(ops), 'family': 'in-use'}, '; '.join(bad[:4]), KNOWN_PRED)
+                break
+        ctx.case(('inuse', text, tuple(ops)))
 
 
 def replay(path):
